@@ -133,6 +133,9 @@ var (
 	rSlice    = Rule{"NUM-SLICE", rules.NumSlice(rules.ScopeSlice, rules.SliceResiduals, 15)}
 	rPanicAPI = Rule{"OWN-PANICAPI", rules.OwnPanicAPI(rules.ScopeAlloc, 5)}
 	rIdxPair  = Rule{"TAB-INDEXPAIR", rules.TabIndexPair}
+	rBudget   = Rule{"TAB-BUDGET", rules.TabBudget}
+	rFixedLST = Rule{"OWN-FIXEDLST", rules.OwnFixedLST}
+	rReflSet  = Rule{"TAB-REFLECTSET", rules.TabReflectSet}
 	rBounds   = Rule{"TAB-BOUNDS", rules.TabBounds}
 	rNegZero  = Rule{"ORD-NEGZERO", rules.OrdNegZero}
 	rAppAlias = Rule{"OWN-APPENDALIAS", rules.OwnAppendAlias(rules.ScopeIon, 30)}
@@ -174,7 +177,7 @@ var registry = map[string]*Property{
 		},
 	},
 	"C03": {
-		Decided:    "The binary reader's type-code table, the value type stored for each type code and the accepted float sizes equal the Ion 1.0 tables (TAB-TYPECODE, reader obligations); validateAnnotatedValue special-cases exactly the type codes whose low nibble bitstream.Next does not read as a body length, so a wrapper around true/false or a sorted struct is measured correctly (TAB-NIBBLE); each field is decoded with the primitive Ion 1.0 prescribes (TAB-CODEC, reader obligations); the VarUInt/VarInt accumulators cannot drop high bits and every narrowing in the bitstream and binary reader is in range (NUM-SHIFT, NUM-NARROW, bitstream obligations); bytes handed to the caller never alias the read buffer (OWN-INPUT, Peek obligations).",
+		Decided:    "The binary reader's type-code table, the value type stored for each type code and the accepted float sizes equal the Ion 1.0 tables (TAB-TYPECODE, reader obligations); validateAnnotatedValue special-cases exactly the type codes whose low nibble bitstream.Next does not read as a body length, so a wrapper around true/false or a sorted struct is measured correctly (TAB-NIBBLE); each field is decoded with the primitive Ion 1.0 prescribes (TAB-CODEC, reader obligations); the VarUInt/VarInt accumulators cannot drop high bits and every narrowing in the bitstream and binary reader is in range (NUM-SHIFT, NUM-NARROW, bitstream obligations); bytes handed to the caller never alias the read buffer (OWN-INPUT, Peek obligations); every value decoder consumes exactly the declared length of the current value (TAB-BUDGET).",
 		Necessary:  "A type code decoded as another type, a refused float size, or a wrapper length check that misreads a bool's nibble (finding F13, fixed) rejects or misdecodes a valid encoding.",
 		NotDecided: "VarUInt/VarInt arithmetic, padding, NOP handling, struct ordering, lengths (behavioural); TAB-BUDGET of the design was not built",
 		Technique:  tabTech + "; " + "codec-family pairing (length function vs append function per operand, by SSA path) and codec tables compared with Ion 1.0" + "; " + numTech + "; escape walk of bufio.Reader.Peek results",
@@ -182,7 +185,7 @@ var registry = map[string]*Property{
 		Rules: []Rule{
 			only(rTypecode, 30, whatLacks("binaryNulls[")), rNibble,
 			only(rCodec, 8, whatHas("decode")), only(rShift, 5, posHas("ion/bitstream.go")), only(rNarrow, 15, posHas("ion/bitstream.go", "ion/binaryreader.go")),
-			only(rOwnInput, 2, whatHas("slice returned by Peek")),
+			only(rOwnInput, 2, whatHas("slice returned by Peek")), rBudget,
 		},
 	},
 	"C04": {
@@ -228,12 +231,12 @@ var registry = map[string]*Property{
 		},
 	},
 	"C08": {
-		Decided:    "Every Reader method exit that refuses a call (returns a fresh *UsageError) is free of side effects on the reader (REFUSE-PURE); every token the tokenizer hands out as an unfinished value has a skip arm (TAB-TOKEN, skip arms); StepIn enters a nesting level only for a non-null container in both implementations (ORD-STEPIN); none of the lob readers and skippers reaches the comment-skipping whitespace routine, so skip and read agree that '/' inside {{ }} is data (OWN-LOBWS).",
+		Decided:    "Every Reader method exit that refuses a call (returns a fresh *UsageError) is free of side effects on the reader (REFUSE-PURE); every token the tokenizer hands out as an unfinished value has a skip arm (TAB-TOKEN, skip arms); StepIn enters a nesting level only for a non-null container in both implementations (ORD-STEPIN); none of the lob readers and skippers reaches the comment-skipping whitespace routine, so skip and read agree that '/' inside {{ }} is data (OWN-LOBWS); in binary, reading a value and skipping it hand the same declared length to the primitive readers, so both end at the same byte (TAB-BUDGET).",
 		Necessary:  "A refused StepIn/StepOut/accessor that changes cursor state, or a value kind that cannot be skipped, makes later results depend on the navigation.",
 		NotDecided: "agreement of skip and read on where an arbitrary value ends (finding F17, clob text containing '}', was repaired but no rule would detect its return)",
 		Technique:  ssaTech + "; " + tabTech + "; enum value-set and nil-fact dominance at nesting-level pushes; who-may-call check for the lob whitespace routines",
 		DesignRef:  "DESIGN.md §3.1, §3.4, §4 C08",
-		Rules:      []Rule{rRefuse, only(rToken, 13, whatHas("skip arm")), rStepIn, rLobWS},
+		Rules:      []Rule{rRefuse, only(rToken, 13, whatHas("skip arm")), rStepIn, rLobWS, rBudget},
 	},
 	"C09": {
 		Decided:    "Every insertion into a symbol text index (buildIndex, symbolTableBuilder.Add, Build) happens only when the text is not present yet, with imports consulted before locals, or copies an existing index (ORD-FIRSTWINS); NewSymbolTokenBySID looks an ID up only after 0 <= sid <= MaxID() was established and rejects everything else (ORD-SIDBOUND); a local table resolves text through its imports before its own index on every path (ORD-IMPORTFIRST); Build neither writes to the builder nor hands the builder's own symbols/index storage to the built table (OWN-BUILD); every table object is built with an index that describes exactly the symbols it holds (TAB-INDEXPAIR).",
@@ -252,12 +255,12 @@ var registry = map[string]*Property{
 		Rules:      []Rule{rOrdBVMReset, rOrdLstHide, {"NIL-ACC", rules.NilAcc(rules.ScopeLST, 4)}, rTokCache, only(rBounds, 1, funcHas("readImport"))},
 	},
 	"C11": {
-		Decided:    "The field names and the annotation the symbol table writer emits are exactly those the symbol table reader dispatches on, max_id included (TAB-LSTFIELDS); the fixed/imported table is written before the first value (ORD-LSTFIRST); the builder consults imports and existing entries before defining a local symbol (ORD-FIRSTWINS); token text reaches the table lookup as it is — never through the '$n' interpretation, which would bypass a fixed table's 'not defined' error and emit an arbitrary ID (OWN-TEXTAUTH, binary writer obligations).",
+		Decided:    "The field names and the annotation the symbol table writer emits are exactly those the symbol table reader dispatches on, max_id included (TAB-LSTFIELDS); the fixed/imported table is written before the first value (ORD-LSTFIRST); the builder consults imports and existing entries before defining a local symbol (ORD-FIRSTWINS); token text reaches the table lookup as it is — never through the '$n' interpretation, which would bypass a fixed table's 'not defined' error and emit an arbitrary ID (OWN-TEXTAUTH, binary writer obligations); with a fixed table, text it does not define ends in a non-nil error (OWN-FIXEDLST).",
 		Necessary:  "An import declaration the reader does not understand leaves every imported ID unresolvable; a table after the first value or a local redefinition of imported text emits IDs the stream does not (minimally) define.",
-		NotDecided: "ID arithmetic; that unknown text under a fixed table is an error (OWN-FIXEDLST not built)",
+		NotDecided: "ID arithmetic across imports; minimality of the emitted table beyond lookup-before-add",
 		Technique:  tabTech + "; SSA dominance for ORD; call-graph fixed point and value flow for OWN-TEXTAUTH; copy-source and path search rules for the builder and the writer",
 		DesignRef:  "DESIGN.md §3.4, §3.5, §4 C11",
-		Rules:      []Rule{rLstFields, rOrdLstFirst, rOrdFirstWins, only(rTextAuth, 2, posHas("ion/binarywriter.go")), rImpFirst, rBuild, rWrCache, rIdxPair},
+		Rules:      []Rule{rLstFields, rOrdLstFirst, rOrdFirstWins, only(rTextAuth, 2, posHas("ion/binarywriter.go")), rImpFirst, rBuild, rWrCache, rIdxPair, rFixedLST},
 	},
 	"C12": {
 		Decided:    "For all 24 error-returning Writer methods on each writer implementation: the sticky error is tested before any effect on the writer (ERR-GUARD-W) and every returned error is the sticky error (ERR-STICKY-W); every value opened is closed on each success path (ORD-VALUE); Finish re-arms the binary writer before every success exit (ORD-REARM); every panicking pop on the writer-side stacks is dominated by a non-emptiness fact (ORD-POPGUARD, writer obligations); nothing in the writer implementation reachable from the Writer methods consults a time-, random- or schedule-dependent source and every map range there has an order-insensitive body (OWN-NONDET, functions outside marshal.go, fields.go and the command); an exit that refuses a call with an unrecorded UsageError (Finish away from the top level) is reached before any effect on the writer (REFUSE-PURE-W); closing a container reaches clear() before every exit that may succeed, so a pending field name or annotation never leaks to a later value (ORD-ENDCLEAR); the binary writer keeps no text-to-ID memory that outlives its symbol table builder (OWN-WRCACHE).",
@@ -306,14 +309,14 @@ var registry = map[string]*Property{
 		Rules:      []Rule{rOrdSortMap, rOwnNondet, only(rNarrow, 1, posHas("ion/marshal.go")), rOpaque, rKind, only(rTextAuth, 1, posHas("ion/marshal.go", "ion/unmarshal.go")), only(rAppAlias, 2, posHas("ion/fields.go", "ion/marshal.go", "ion/unmarshal.go"))},
 	},
 	"C17": {
-		Decided:    "In unmarshal.go: token text and the other nil-if-unknown pointer fields are tested before use (NIL-FIELD); accessor results are dereferenced only under the non-null precondition (NIL-ACC, NIL-ARG); Decoder.Decode/DecodeTo return the reader's error or ErrNoInput, never nil, when Next() reports no value (ORD-NOINPUT); every reflective numeric store is dominated by the matching Overflow test on the same value and operand, every signed-to-unsigned conversion by a sign test, every big.Int extraction by IsUint64 (NUM-REFLECT, NUM-NARROW, NUM-BIG in unmarshal.go).",
+		Decided:    "In unmarshal.go: token text and the other nil-if-unknown pointer fields are tested before use (NIL-FIELD); accessor results are dereferenced only under the non-null precondition (NIL-ACC, NIL-ARG); Decoder.Decode/DecodeTo return the reader's error or ErrNoInput, never nil, when Next() reports no value (ORD-NOINPUT); every reflective numeric store is dominated by the matching Overflow test on the same value and operand, every signed-to-unsigned conversion by a sign test, every big.Int extraction by IsUint64 (NUM-REFLECT, NUM-NARROW, NUM-BIG in unmarshal.go); a reflective Set under a type-identity test stores a value of exactly that type (TAB-REFLECTSET); every index in unmarshal.go is in bounds (NUM-INDEX, unmarshal obligations).",
 		Necessary:  "A symbol without text ($0) or a typed null reaching an unguarded dereference panics instead of returning an error (F9, fixed); a Decoder that returns nil at the end of the stream never reports ErrNoInput.",
-		NotDecided: "the value × target conversion table, type identity of reflective Set calls (TAB-REFLECTSET not built; finding F10 was repaired), the reader's position after a failed decode",
+		NotDecided: "the value × target conversion table, the reader's position after a failed decode",
 		Technique:  "SSA must-dataflow of nil facts; path search to exits; branch-fact dominance of Overflow*/IsUint64 tests; " + numTech,
 		DesignRef:  "DESIGN.md §3.2, §3.5, §4 C17",
 		Rules: []Rule{
 			{"NIL-FIELD", rules.NilField(rules.ScopeUnmarshal, 2)}, {"NIL-ACC", rules.NilAcc(rules.ScopeUnmarshal, 10)}, {"NIL-ARG", rules.NilArg(rules.ScopeUnmarshal, 0)}, rOrdNoInput,
-			rReflect, only(rBig, 1, posHas("ion/unmarshal.go")), only(rNarrow, 2, posHas("ion/unmarshal.go")),
+			rReflect, only(rBig, 1, posHas("ion/unmarshal.go")), only(rNarrow, 2, posHas("ion/unmarshal.go")), rReflSet, only(rIndex, 1, posHas("ion/unmarshal.go")),
 		},
 	},
 	"C18": {
@@ -359,6 +362,9 @@ var devRules = map[string]Rule{
 	"OWN-INPUT":       {"OWN-INPUT", rules.OwnInput},
 	"TAB-DATEVAL":     {"TAB-DATEVAL", rules.TabDateVal},
 	"ORD-STEPIN":      {"ORD-STEPIN", rules.OrdStepIn},
+	"TAB-BUDGET":      {"TAB-BUDGET", rules.TabBudget},
+	"OWN-FIXEDLST":    {"OWN-FIXEDLST", rules.OwnFixedLST},
+	"TAB-REFLECTSET":  {"TAB-REFLECTSET", rules.TabReflectSet},
 	"TAB-INDEXPAIR":   {"TAB-INDEXPAIR", rules.TabIndexPair},
 	"ORD-NEGZERO":     {"ORD-NEGZERO", rules.OrdNegZero},
 	"TAB-BOUNDS":      {"TAB-BOUNDS", rules.TabBounds},
